@@ -286,8 +286,8 @@ class Disposable:
         form = self.spec.get("form", "auto")
         # every legal shape of `Iterable[State] | State | None`, including one-shot iterables
         if form == "bad-generator":
-            # the states are produced lazily and producing them fails: entering this resource has failed
-            self.enter_done = False
+            # the states are produced lazily and producing them fails: entering the scope has failed - this resource's own __aenter__
+            # has completed, so it counts among "those already entered" and has to be exited
             self.enter_err = DispErr(f"{self.owner}.d{self.idx}.states")
 
             def failing(err: BaseException = self.enter_err) -> Any:
